@@ -248,5 +248,18 @@ def main(ctx):
     prog, info = load(CRATES)
     ctx.extra['mir'] = info
     ctx.outside += ['serde_json text of the flattened/general envelopes (escaping of unencoded payloads - observed natively: payloads containing `"` '
-                    'do not decode, see DESIGN.md)', 'JwkDocumentExt::create_jws (async state machine; not encoded)', 'real signatures', 'base64url codec']
+                    'do not decode, see DESIGN.md)', 'JwkDocumentExt::create_jws (async state machine; not encoded; CoreDocument::verify_jws and resolve_method are)', 'real signatures', 'base64url codec']
     guarded(ctx, 'encoder audit', 'M', lambda: run(ctx, prog))
+    # the parts of the statement that other properties' audits decide are re-used here, restricted to the obligations C08 names:
+    # recipients of one general token agree on b64 (else a recipient's entry does not decode to the signed payload), and
+    # verification selects the method by kid / nonce / scope inside the scope's own relationship set
+    import c11
+    import c03
+    import c04
+    guarded(ctx, 'general encoder recipients', 'M', lambda: c11.run(ctx, prog, only=r'^general-encoder/'))
+
+    def verification_side():
+        prog2, info2 = load(c03.CRATES, src_only=c03.SRC)
+        c03.run(ctx, prog2, only=r'^verify_jws/')
+        c04.run(ctx, prog2, only=r'^resolve_method/|^resolve_method_ref/')
+    guarded(ctx, 'verification side', 'M', verification_side)
